@@ -111,6 +111,18 @@ pub fn c09_c10(d: &Digest, s: usize, out: &mut Vec<Violation>) {
         // ---- C09 (d)/(e): on_unsubscribe exactly once, in time
         let unsub_evs: Vec<usize> = d.ev.iter().enumerate().filter(|(_, e)| matches!(&e.k, K::Unsub { sub: sb } if sb == sub)).map(|(i, _)| i).collect();
         let before_shutdown = sd.first_shutdown_inv.map(|f| add_ret < f).unwrap_or(true);
+        // ... and not before anybody asked for it
+        if let Some(&i) = unsub_evs.first() {
+            let asked = match (u1.map(|u| u.inv), sd.first_shutdown_inv) {
+                (Some(a), Some(b)) => a.min(b),
+                (Some(a), None) => a,
+                (None, Some(b)) => b,
+                (None, None) => usize::MAX,
+            };
+            if i < asked {
+                v(out, "C09", "released-early", format!("store {s}: subscriber {sub} got on_unsubscribe although neither unsubscribe() nor a shutdown had been invoked"));
+            }
+        }
         if unsub_evs.len() > 1 {
             v(out, "C09", "released-twice", format!("store {s}: subscriber {sub} got on_unsubscribe {} times", unsub_evs.len()));
         }
